@@ -501,7 +501,52 @@ pub fn run_c15(args: &Args, tier: &str, seed: u64) -> Report {
             rep.max("max_input_bytes", series.last().map(|s| s.0 as i64).unwrap_or(0));
         }
     }
-    rep.rule = format!("Delivery: whole reads (blocking) / 4 KiB chunks (async), and 13-byte short reads for the long-element families. Doubling families (nesting depth with/without member names and with multi-valued members, set width, set of collections, attribute count, group count, member count, value length, name length; malformed: unterminated collections, end-collection flood, member-name flood, additional values without attribute), sizes 2 KiB .. {} KiB, both parsers. Step measures, no wall clock: (A) bytes and calls allocated during parse (counting global allocator, this step) and (I) instruction counts under cachegrind (separate layer). Oracle: incremental ratio (c(4n)-c(2n))/(c(2n)-c(n)) <= {RATIO_LIMIT} and allocated bytes <= 256 KiB + 1024 x n; a series stops at its first violating doubling. evaluations = measured parses.", max >> 10);
+    // ---- the same with a logger installed that takes every level: the volume the library formats into its log records while
+    // parsing is a step measure too (records that print what has been collected so far grow quadratically)
+    if args.has("--logged") {
+        vkit::util::install_logger();
+        let lmax = max.min(64 << 10);
+        for fam in ["nest", "nest-multi", "coll-set", "set-width", "set-width-mixed", "member-width-mixed", "attr-count", "member-count", "group-count", "value-len-text", "unterminated"] {
+            for use_async in [false, true] {
+                let key = format!("{fam}/{}/logged", if use_async { "async" } else { "blocking" });
+                if only.as_ref().map(|o| o != &key).unwrap_or(false) {
+                    continue;
+                }
+                let mut series: Vec<(usize, u64, u64)> = vec![];
+                let mut size = 2048usize;
+                while size <= lmax {
+                    rep.eval();
+                    let l0 = vkit::util::LOGGED_BYTES.load(std::sync::atomic::Ordering::Relaxed);
+                    let (bytes, _calls, n, _out) = cost_parse(fam, size, use_async, 0);
+                    let logged = vkit::util::LOGGED_BYTES.load(std::sync::atomic::Ordering::Relaxed) - l0;
+                    series.push((n, logged, bytes));
+                    rep.nontrivial(hash64(format!("{key}/{size}").as_bytes()));
+                    let k = series.len();
+                    let mut stop = false;
+                    if k >= 3 {
+                        for (what, sel) in [("logged-bytes", 1usize), ("alloc-bytes-while-logging", 2)] {
+                            let c = |i: usize| if sel == 1 { series[i].1 as f64 } else { series[i].2 as f64 };
+                            let (d1, d2) = (c(k - 2) - c(k - 3), c(k - 1) - c(k - 2));
+                            if d1 > 1024.0 && d2 / d1 > RATIO_LIMIT {
+                                rep.violation(
+                                    format!("C15:superlinear-{what}:{fam}"),
+                                    format!("{key}: {what} grows by x{:.2} per doubling at {n} input bytes (series (input, logged bytes, allocated bytes): {series:?}); linear is 2, quadratic 4, limit {RATIO_LIMIT}", d2 / d1),
+                                    vec!["c15".to_string(), "--logged".into(), "--only".into(), key.clone(), "--max".into(), size.to_string()],
+                                );
+                                stop = true;
+                            }
+                        }
+                    }
+                    if stop {
+                        break;
+                    }
+                    size *= 2;
+                }
+                rep.count("logged_series", 1);
+            }
+        }
+    }
+    rep.rule = format!("Delivery: whole reads (blocking) / 4 KiB chunks (async), and 13-byte short reads for the long-element families. Doubling families (nesting depth with/without member names and with multi-valued members, set width, set of collections, attribute count, group count, member count, value length, name length; malformed: unterminated collections, end-collection flood, member-name flood, additional values without attribute), sizes 2 KiB .. {} KiB, both parsers. Step measures, no wall clock: (A) bytes and calls allocated during parse (counting global allocator, this step) and (I) instruction counts under cachegrind (separate layer); with --logged additionally (L) the bytes the library formats into log records, and what it allocates meanwhile, when a logger takes every level (11 families to 64 KiB). Oracle: incremental ratio (c(4n)-c(2n))/(c(2n)-c(n)) <= {RATIO_LIMIT} and allocated bytes <= 256 KiB + 1024 x n; a series stops at its first violating doubling. evaluations = measured parses.", max >> 10);
     rep
 }
 
